@@ -40,7 +40,11 @@ def comb_check(block, spec_fn, params, W, pre_fn=None, timeout_ms=60000, signed_
             continue
         e = exp[w.name]
         e = e if isinstance(e, SV) else SV(e, W)
-        goals.append(SV.lift(val[w], W).t == e.t)
+        if val[w].size() > W:
+            # an output wider than every documented width: compared at its own width (the spec value zero-extended)
+            goals.append(val[w] == z3.ZeroExt(val[w].size() - W, e.t))
+        else:
+            goals.append(SV.lift(val[w], W).t == e.t)
         names.append(w.name)
     if not goals:
         return 'vacuous', None, 0.0, 'no outputs constrained'
